@@ -476,6 +476,64 @@ V = [
     ("C20", B, "modality kwargs dropped", REA,
      "            meta_override=meta_override,\n            **get_load_data_modality_kwargs()\n        )\n        data += measurements",
      "            meta_override=meta_override,\n        )\n        data += measurements", "C20-R1"),
+    # ---- round 9
+    ("C10", B, "settings share the default table's entries", FIT,
+     "self.fp = FitProperties(**copy.deepcopy(FP_DEFAULT))",
+     "self.fp = FitProperties(**FP_DEFAULT)", "C10-R9"),
+    ("C19", B, "answer converted before the emptiness test", PRO,
+     """    wcp = input("size [µm] (currently '{}'): ".format(wcpd))
+    if wcp:
+        pf["weight_cp"] = float(wcp) * 1e-6""",
+     """    wcp = float(input("size [µm] (currently '{}'): ".format(wcpd)) or 0)
+    if wcp:
+        pf["weight_cp"] = wcp * 1e-6""", "C19-R2"),
+    ("C19", B, "batch fit through the (path, index) cache key", CRA,
+     """            for idnt in grp:
+                fit_data(idnt, profile_path=profile_path)""",
+     """            for ii in range(len(grp)):
+                idnt = fit_data(pp, enum=ii, profile_path=profile_path)""",
+     "C19-R5"),
+    ("C07", B, "missing column ends the smoothing loop", PRE,
+     """        if col not in apret:
+            continue""", """        if col not in apret:
+            break""", "C07-R2"),
+    ("C20", B, "per-file loop loads the whole location", REA,
+     "            data = load_data(pp)", "            data = load_data(path)",
+     "C20-R5"),
+    ("C16", B, "list joined with another separator", RIO,
+     'val = ",".join(val)', 'val = ", ".join(val)', "C16-R1"),
+    ("C09", B, "shipped label tested on the base name", RAT,
+     "        if training_set in avr:",
+     "        if pathlib.Path(training_set).name in avr:", "C09-R11"),
+    ("C10", B, "keyword arguments leak into the default table", RAT,
+     """        reg_cl, default_kw = reg_dict[regressor]
+        kw = default_kw.copy()""",
+     """        reg_cl, kw = reg_dict[regressor]""", "C10-R10"),
+    ("C01", B, "stored initial parameters handed out", IND,
+     'parms = copy.deepcopy(self.fit_properties["params_initial"])',
+     'parms = self.fit_properties["params_initial"]', "C01-R13"),
+    ("C03", B, "stored initial parameters handed out", IND,
+     'parms = copy.deepcopy(self.fit_properties["params_initial"])',
+     'parms = self.fit_properties["params_initial"]', "C03-R16"),
+    ("C04", B, "stored initial parameters handed out", IND,
+     'parms = copy.deepcopy(self.fit_properties["params_initial"])',
+     'parms = self.fit_properties["params_initial"]', "C04-R9"),
+    ("C17", B, "integer counts in the flatness quotient", FEA,
+     """                pos = np.sum(grad > 0)
+                neg = np.sum(grad < 0)""",
+     """                pos = len(grad[grad > 0])
+                neg = len(grad[grad < 0])""", "C17-R6"),
+    ("C05", B, "scan grid with a float step", FIT,
+     "indentations = np.linspace(xmin, xmin*.05, num_samp)",
+     "indentations = np.arange(xmin, xmin*.05, (xmin*.05 - xmin)/num_samp)",
+     "C05-R4"),
+    ("C14", B, "memoised list of steps sorted in place", PRE,
+     """                msg = "The preprocessing method '{}' does not exist!"
+                raise KeyError(msg.format(pid))""",
+     """                known = available()
+                known.sort()
+                msg = "The preprocessing method '{}' does not exist!"
+                raise KeyError(msg.format(pid))""", "C14-RM"),
 ]
 
 
